@@ -55,7 +55,7 @@ def scenario(draw):
     for _ in range(draw(st.integers(0, 4))):
         faults[str(draw(st.integers(0, 10)))] = draw(st.sampled_from(['garbage', 'garbage-joined', 'late', 'silent', 'close-before', 'close-inside', 'close-after', 'chunk1', 'chunk3']))
     return {'kind': 'scenario', 'io': kind, 'callers': callers, 'faults': faults, 'refuse': draw(st.sampled_from([0, 0, 1, 3])),
-            'banner': draw(st.booleans()), 'poller': draw(st.sampled_from(['model', 'real'])), 'schedule': draw(st.lists(st.integers(0, 4), min_size=10, max_size=200))}
+            'banner': draw(st.booleans()), 'eol': draw(st.sampled_from(['\n', '\n', '\r\n'])), 'poller': draw(st.sampled_from(['model', 'real'])), 'schedule': draw(st.lists(st.integers(0, 4), min_size=10, max_size=200))}
 
 
 class Device:
@@ -70,7 +70,7 @@ class Device:
     def attach(self, sock):
         self.sock = sock
         if self.world.case.get('banner'):
-            sock.push(b'WELCOME BANNER\n' if self.world.case['io'] == 'string' else b'\xde\xad')
+            sock.push(b'WELCOME BANNER' + self.world.eol if self.world.case['io'] == 'string' else b'\xde\xad')
 
     def on_close(self, sock):
         self.closed = True
@@ -80,8 +80,8 @@ class Device:
         w.bytelog.append((dsched.v_time(), data))
         self.buf += data
         if w.case['io'] == 'string':
-            while b'\n' in self.buf:
-                line, self.buf = self.buf.split(b'\n', 1)
+            while w.eol in self.buf:
+                line, self.buf = self.buf.split(w.eol, 1)
                 self.command(line)
         else:
             while len(self.buf) >= 4:
@@ -90,7 +90,7 @@ class Device:
 
     def reply_for(self, cmd):
         if self.world.case['io'] == 'string':
-            return b'R:' + cmd + b'\n'
+            return b'R:' + cmd + self.world.eol
         return bytes(reversed(cmd))
 
     def command(self, cmd):
@@ -122,7 +122,7 @@ class Device:
             return
         if fault == 'garbage-joined':
             # the reply and following unsolicited data arrive in one segment
-            self.sock.push(reply + (b'#stale#\n#more#\n' if w.case['io'] == 'string' else b'\xff\xff\xff'))
+            self.sock.push(reply + (b'#stale#' + w.eol + b'#more#' + w.eol if w.case['io'] == 'string' else b'\xff\xff\xff'))
             return
         n = {'chunk1': 1, 'chunk3': 3}.get(fault)
         if n:
@@ -131,7 +131,7 @@ class Device:
         else:
             self.sock.push(reply)
         if fault == 'garbage':
-            self.sock.push(b'#stale#\n' if w.case['io'] == 'string' else b'\xff\xff\xff')
+            self.sock.push(b'#stale#' + w.eol if w.case['io'] == 'string' else b'\xff\xff\xff')
         if fault == 'close-after':
             self.close()
 
@@ -145,6 +145,7 @@ class Device:
 class World:
     def __init__(self, case):
         self.case = case
+        self.eol = case.get('eol', '\n').encode()     # line terminator of the device (both directions)
         self.commands = []
         self.bytelog = []
         self.disconnects = []
@@ -159,6 +160,8 @@ class World:
                             self.noreply.add(cmd.encode())
 
     def factory(self, addr, index):
+        if 'other' in str(addr[0]):
+            return Device(self, index)     # the device of the second communicator: never used, never failing
         if self.refuse_left > 0:
             self.refuse_left -= 1
             return None
@@ -196,8 +199,11 @@ def run(case):
             def getChild(self, *a, **k):
                 return self
         cls = fio.StringIO if case['io'] == 'string' else fio.BytesIO
-        io = cls('io', L(), {'uri': 'tcp://device:4000', 'description': 'communicator', 'timeout': {'value': TIMEOUT},
-                             'wait_before': {'value': WAIT_BEFORE}, 'pollinterval': {'value': INTERVAL}}, srv)
+        cfg_io = {'uri': 'tcp://device:4000', 'description': 'communicator', 'timeout': {'value': TIMEOUT},
+                  'wait_before': {'value': WAIT_BEFORE}, 'pollinterval': {'value': INTERVAL}}
+        if case['io'] == 'string' and case.get('eol', '\n') != '\n':
+            cfg_io['end_of_line'] = case['eol']
+        io = cls('io', L(), dict(cfg_io), srv)
         io.earlyInit()
         out['io'] = io
         for name in ('a', 'b'):
@@ -205,6 +211,15 @@ def run(case):
                 out['callbacks'][name] += 1
                 return True
             io.registerReconnectCallback(name, cb)
+        # a second communicator of the same node, with callbacks of the same names: it never reconnects
+        io2 = cls('io2', L(), dict(cfg_io, uri='tcp://other:4000'), srv)
+        io2.earlyInit()
+        out['foreign_callbacks'] = []
+        for name in ('a', 'b'):
+            def cb2(name=name):
+                out['foreign_callbacks'].append(name)
+                return True
+            io2.registerReconnectCallback(name, cb2)
         try:
             io.read_is_connected()
         except Exception as e:   # noqa
@@ -324,7 +339,20 @@ def check(ctx, case):
             if exc is None and r['reply'] != want:
                 ctx.finding(f'reply-belongs-to-other-command:{case["io"]}', sub, f'communicate({op[1]!r}) returned {r["reply"]!r}; device log {world.commands!r}'[:500])
                 return
-            # (5) a call fails within its time-out (+1 s granularity of the byte time-out, + waiting for the lock is excluded: measured per call)
+            # (4) framing is independent of the chunking: a command the device answered completely (whatever the segmentation,
+            # also with unsolicited data after the reply) succeeds, unless the connection was lost meanwhile
+            if exc is not None:
+                cmd = op[1].encode() if case['io'] == 'string' else encode(case, op[1])
+                seen = [(i, t) for i, (t, c) in enumerate(world.commands) if c == cmd]
+                if len(seen) == 1:
+                    idx, tcmd = seen[0]
+                    fault = case['faults'].get(str(idx))
+                    late_pending = any(case['faults'].get(str(j)) == 'late' for j in range(idx))
+                    lost = any(tcmd - 1e-9 <= td <= r['t1'] for td in world.disconnects)
+                    if fault in (None, 'chunk1', 'chunk3', 'garbage', 'garbage-joined') and not lost and not late_pending:
+                        ctx.finding(f'call-failed-although-device-replied:{fault or "plain"}:{case["io"]}', sub,
+                                    f'communicate({op[1]!r}) -> {exc!r}; device got it at +{tcmd - s.t0:.2f}, eol {case.get("eol")!r}'[:400])
+                        return
         if op[0] == 'multi' and exc is None:
             cmds = [c for c, e, d in op[1] if e]
             want = [('R:' + c) if case['io'] == 'string' else bytes(reversed(encode(case, c))) for c in cmds]
@@ -391,6 +419,9 @@ def check(ctx, case):
     if world.disconnects and not out.get('connected_at_end'):
         ctx.finding('not-reconnected-at-the-end', case, f'disconnects {len(world.disconnects)}, accepted connections {len(world.accepted)}')
         return
+    if out.get('foreign_callbacks'):
+        ctx.finding('reconnect-callback-of-other-communicator-ran', case, repr(out['foreign_callbacks']))
+        return
     for name, n in out['callbacks'].items():
         if n != nrec:
             ctx.finding(f'reconnect-callback-count:{"missing" if n < nrec else "too-many"}', case, f'{nrec} reconnects, callback {name} ran {n} times')
@@ -406,7 +437,7 @@ def check(ctx, case):
                 return
         ctx.ok('polling-resumed')
         ctx.label('poller:real')
-    ctx.label(f'io:{case["io"]}', f'disconnects:{len(world.disconnects)}', *[f'fault:{v}' for k, v in case['faults'].items() if int(k) < len(world.commands)])
+    ctx.label(f'io:{case["io"]}', f'eol:{case.get("eol", chr(10))!r}', f'disconnects:{len(world.disconnects)}', *[f'fault:{v}' for k, v in case['faults'].items() if int(k) < len(world.commands)])
     ctx.sample({'io': case['io'], 'callers': case['callers'], 'faults': case['faults'], 'device_log': [(round(t - s.t0, 2), c.decode('latin-1')) for t, c in world.commands][:12]}, every=97)
 
 
